@@ -14,7 +14,7 @@ CHECKS = {
             "DESIGN.md section 5 C01"),
     "C02": (True, "exploration",
             "runtime oracle on returned paths: bit comparison of the first state with the installed start, goal predicate on the last state",
-            "Returned paths of " + W1 + " are checked for non-emptiness, bit-identical start and goal satisfaction; RRT-Connect assembly kinds (direct / junction) are counted; plus degenerate-metric twins of the start, very deep trees (4 500-9 000 nodes on the solution branch) and goal regions overhanging the sampling box.",
+            "Returned paths of " + W1 + " are checked for non-emptiness, bit-identical start and goal satisfaction; RRT-Connect assembly kinds (direct / junction) are counted; plus degenerate-metric twins of the start, very deep trees (4 500-9 000 nodes on the solution branch) and goal regions overhanging the sampling box. PRM histories with short-lived problem definitions (freed and re-allocated) and a second setup with the same space / goal / checker objects and a -0.0 twin of the start are included.",
             "Trusted: the goal predicate of the harness goal object.",
             "DESIGN.md section 5 C02"),
     "C03": (True, "exploration",
@@ -69,7 +69,7 @@ CHECKS = {
             "DESIGN.md section 5 C18"),
     "C09": (True, "exploration",
             "runtime oracle over executed distance calls: metric axioms + independent reference on exhaustive lattice triples and seeded random triples",
-            "Every distance call made by the workload (all ordered triples of a 56/150-value special lattice per space setting, plus 2e4/1.5e6 random triples, about 45-90 space settings (bounded and unbounded, R^1..R^33) incl. compounds with weights 0/1e-3/1/50/-2 and the erased *_dyn interface) is checked online against the metric axioms, the diameter bound, representation independence and an independent atan2-based reference. Exploration: holds on the executions observed, nothing more.",
+            "Every distance call made by the workload (all ordered triples of a 56/150-value special lattice per space setting, plus 2e4/1.5e6 random triples, about 45-90 space settings (bounded and unbounded, R^1..R^33) incl. compounds with weights 0/1e-3/1/50/-2 and the erased *_dyn interface) is checked online against the metric axioms, the diameter bound, representation independence and an independent atan2-based reference. Exploration: holds on the executions observed, nothing more. An overflow band (coordinates around 1e200) is visited for every space with a real-vector component: the distance there must be a number, not negative, symmetric and zero on the diagonal (known finding K-4: 0 * inf = NaN in compounds with a zero-weight overflowing component).",
             "Trusted: the reference formulas, IEEE-754 arithmetic, tolerances stated in the evidence. Inputs above 1e100 in R^n are outside the explored domain.",
             "DESIGN.md section 5 C09"),
     "C10": (True, "exploration",
@@ -94,7 +94,7 @@ CHECKS = {
             "DESIGN.md section 5 C13"),
     "C14": (True, "exploration",
             "statistical runtime monitor: DKW goodness-of-fit of large samples against exact marginal laws and two-sample DKW independence tests at alpha = 1e-9",
-            "2e5 (quick) / 5e6 (thorough) samples per setting (tight SO3 cones: 3e3+) are drawn through sample_uniform and every scalar statistic (quaternion coordinates on absolute values: q and -q are one rotation; wide cones, cones around large rotations, a 0.07 rad cone and a 50-dimensional box in every run) is compared with its exact law; a deviation above the DKW epsilon (7.3e-3 / 1.5e-3) is a violation with false-alarm probability below 1e-6 per run. Biases below epsilon are invisible.",
+            "2e5 (quick) / 5e6 (thorough) samples per setting (tight SO3 cones: 3e3+) are drawn through sample_uniform and every scalar statistic (quaternion coordinates on absolute values: q and -q are one rotation; wide cones, cones around large rotations, a 0.07 rad cone and a 50-dimensional box in every run) is compared with its exact law; a deviation above the DKW epsilon (7.3e-3 / 1.5e-3) is a violation with false-alarm probability below 1e-6 per run. Biases below epsilon are invisible. A 0.033 rad cone is sampled 40 times (epsilon 0.52).",
             "Trusted: ChaCha8 as the source of randomness; exact marginal laws derived in DESIGN.md.",
             "DESIGN.md section 5 C14"),
     "C19": (True, "exploration",
